@@ -50,6 +50,11 @@ structure ClassTable where
   getters : List Nat
   /-- attributes whose missing initialisation is an open entry of known_findings.json -/
   knownUninit : List Nat
+  /-- attributes that may hold (or contain) a mutable container owned by the caller of a setter / `__init__`
+      (reference-flow analysis of the translator) -/
+  aliased : List Nat
+  /-- … the ones documented as the behaviour of the tree as first read (`_filters`, `_accommodated_spectra`) -/
+  knownAliased : List Nat
   deriving Repr, Inhabited
 
 inductive Shape where
@@ -251,6 +256,12 @@ def initTotalB (t : ClassTable) : Bool :=
     | .ret _ => true
     | .attrErr a _ => t.knownUninit.contains a
     | _ => false
+
+/-- no parameter is stored by reference to a caller-owned container, except the documented ones: an in-place change of
+an object previously handed to a setter cannot reach the instrument (the quantifier "sequence of parameter changes"
+then really is "sequence of setter calls") -/
+def aliasFreeB (t : ClassTable) : Bool :=
+  t.aliased.all fun a => a < t.attrs.length && t.knownAliased.contains a
 
 /-- static strengthening: every attribute mentioned by any reachable statement is assigned by `__init__` -/
 def allMentioned (t : ClassTable) : List Nat :=
